@@ -375,6 +375,7 @@ func (s *clientSocket) TransportName() string {
 func (s *clientSocket) Send(packets ...*parser.Packet) {
 	s.transportMu.RLock()
 	defer s.transportMu.RUnlock()
+	verifhook.Point("eio.clientSocket.Send:locked")
 	s.writeWritablePackets(packets...)
 }
 
